@@ -27,14 +27,16 @@ from . import Engine
 # argument kinds and forms (the "aliasing grid")
 
 KINDS = {
-    "time": {"target": "us", "others": ["ns", "ms", "s"], "lo": 2.0e3, "hi": 6.0e4},
-    "length": {"target": "m", "others": ["mm", "cm"], "lo": 5.0, "hi": 80.0},
-    "length_s": {"target": "m", "others": ["mm", "cm"], "lo": 1.0, "hi": 4.0},
-    "angle": {"target": "rad", "others": ["deg"], "lo": 0.05, "hi": 3.0},
-    "wavelength": {"target": "angstrom", "others": ["nm"], "lo": 0.5, "hi": 10.0},
-    "energy": {"target": "meV", "others": ["eV", "ueV"], "lo": 1.0, "hi": 100.0},
-    "energy_big": {"target": "meV", "others": ["eV"], "lo": 200.0, "hi": 500.0},
-    "Q": {"target": "1/angstrom", "others": ["1/nm"], "lo": 0.2, "hi": 10.0},
+    # "others" deliberately lists many SI-prefixed units: the unit a function converts to
+    # internally is not always the unit of its result (e.g. metres inside the gravity code)
+    "time": {"target": "us", "others": ["ns", "ms", "s", "us"], "lo": 2.0e3, "hi": 6.0e4},
+    "length": {"target": "m", "others": ["mm", "cm", "km", "angstrom"], "lo": 5.0, "hi": 80.0},
+    "length_s": {"target": "m", "others": ["mm", "cm", "angstrom"], "lo": 1.0, "hi": 4.0},
+    "angle": {"target": "rad", "others": ["deg", "mrad"], "lo": 0.05, "hi": 3.0},
+    "wavelength": {"target": "angstrom", "others": ["nm", "m", "pm", "um", "mm"], "lo": 0.5, "hi": 10.0},
+    "energy": {"target": "meV", "others": ["eV", "ueV", "J"], "lo": 1.0, "hi": 100.0},
+    "energy_big": {"target": "meV", "others": ["eV", "J"], "lo": 200.0, "hi": 500.0},
+    "Q": {"target": "1/angstrom", "others": ["1/nm", "1/m", "1/pm"], "lo": 0.2, "hi": 10.0},
     "density": {"target": "1/angstrom**3", "others": ["1/nm**3"], "lo": 0.01, "hi": 1.0},
 }
 VEC_KINDS = {"vec_pos": "m", "vec_beam": "m", "vec_Q": "1/angstrom", "gravity": "m/s**2"}
@@ -44,16 +46,19 @@ SHAPES = ["0d", "1d", "1d", "view", "2d", "binned"]
 def gen_form(rng, kind):
     if kind in VEC_KINDS:
         return {"unit": rng.choice(["target", "target", "other"]), "dtype": "float64",
-                "shape": rng.choice(["0d", "1d", "view"]), "seed": rng.randrange(1 << 30), "n": rng.choice([1, 3, 8])}
-    return {"unit": rng.choice(["target", "target", "other"]),
+                "shape": rng.choice(["0d", "1d", "view"]), "seed": rng.randrange(1 << 30), "n": rng.choice([1, 3, 8]),
+                "dim": rng.choice(["event", "event", "det"])}
+    return {"unit": rng.choice(["target", "other", "other"]),
             "dtype": rng.choice(["float64", "float64", "float32", "int64"]),
-            "shape": rng.choice(SHAPES), "seed": rng.randrange(1 << 30), "n": rng.choice([1, 3, 8, 16])}
+            "shape": rng.choice(SHAPES), "seed": rng.randrange(1 << 30), "n": rng.choice([1, 3, 8, 16]),
+            "dim": rng.choice(["event", "event", "det", "wavelength"])}
 
 
-def build_arg(kind, form, dim="event"):
+def build_arg(kind, form, dim=None):
     """Return (object, parent_or_None).  A pure function of (kind, form)."""
     import scipp as sc
 
+    dim = dim or form.get("dim", "event")
     g = np.random.default_rng(form["seed"])
     n = form["n"]
     if kind in VEC_KINDS:
@@ -592,6 +597,7 @@ def _gen_call(rng, pool_kinds):
     _, params = CALLS[key][0], CALLS[key][1]
     args = {}
     dim_shape = None
+    first_dim = None
     for name, kind in params.items():
         if name == "$data":
             args[name] = {"data": kind, "form": gen_form(rng, "time")}
@@ -612,13 +618,76 @@ def _gen_call(rng, pool_kinds):
                 form["shape"] = "0d"
             else:
                 form["shape"], form["n"] = dim_shape
+                if key in SAME_LAYOUT or rng.random() < 0.6:
+                    form["dim"] = first_dim
+        if first_dim is None:
+            first_dim = form.get("dim")
         if kind in VEC_KINDS and form["shape"] in ("2d", "binned"):
             form["shape"] = "1d"
         args[name] = {"kind": kind, "form": form}
     return {"k": "call", "f": key, "args": args}
 
 
+_GRID = []
+GRID_RUNS = 64
+
+
+def _grid_cases():
+    """The aliasing grid, enumerated: every catalogued call x every argument x every unit the
+    workload knows for that argument's kind x {0-d, 1-d, view, binned} x {float64, float32},
+    the remaining arguments scalar in their canonical unit (one-op histories)."""
+    if _GRID:
+        return _GRID
+    n = 0
+    for key in sorted(CALLS):
+        params = CALLS[key][1]
+        for name, kind in params.items():
+            if name == "$data":
+                for shape in ("1d", "binned"):
+                    for unit in ("target", "other"):
+                        n += 1
+                        _GRID.append({"k": "call", "f": key, "c": 0, "args": {"$data": {
+                            "data": kind, "form": {"unit": unit, "dtype": "float64", "shape": shape, "seed": n, "n": 5}}}})
+                continue
+            if kind in VEC_KINDS:
+                units = [("target", 0), ("other", 0)]
+                shapes = ["0d", "1d", "view"]
+                dtypes = ["float64"]
+            else:
+                units = [("target", 0)] + [("other", j) for j in range(len(KINDS[kind]["others"]))]
+                shapes = ["0d", "1d", "view", "binned"]
+                dtypes = ["float64", "float32"]
+            for (uc, uj) in units:
+                for shape in shapes:
+                    for dt in dtypes:
+                        n += 1
+                        args = {}
+                        for other, okind in params.items():
+                            if other == name:
+                                # seed chosen so that seed % len(others) selects unit uj
+                                args[other] = {"kind": kind, "form": {
+                                    "unit": uc, "dtype": dt, "shape": shape, "seed": 7 * 60 + uj, "n": 4,
+                                    "dim": "event"}}
+                            else:
+                                oshape = "0d"
+                                odim = "det"
+                                if key in SAME_LAYOUT:
+                                    oshape, odim = (shape if shape != "binned" else "1d"), "event"
+                                elif okind == "vec_pos" and shape in ("1d", "view") and n % 2:
+                                    oshape = "1d"  # a second, independent dimension (broadcast)
+                                args[other] = {"kind": okind, "form": {
+                                    "unit": "target", "dtype": "float64", "shape": oshape, "seed": 11, "n": 3,
+                                    "dim": odim}}
+                        _GRID.append({"k": "call", "f": key, "c": 0, "args": args})
+    return _GRID
+
+
 def generate(rng, tier, i):
+    if i < GRID_RUNS:
+        cases = _grid_cases()
+        per = (len(cases) + GRID_RUNS - 1) // GRID_RUNS
+        return {"callers": 1, "grid": [i * per, min(len(cases), (i + 1) * per), len(cases)],
+                "ops": copy.deepcopy(cases[i * per:(i + 1) * per])}
     callers = rng.choice([1, 2, 2, 3])
     n_ops = rng.randrange(2, 13)
     ops = []
@@ -692,6 +761,7 @@ class _World:
     def __init__(self):
         self.pool: list = []  # (obj, parent, recipe)
         self.handles: dict[int, object] = {}
+        self.after_build = None
 
 
 def _resolve_recipe(scn_ops, ref_index):
@@ -735,6 +805,8 @@ def _exec_op(world, scn_ops, op, fresh=False):
         kwargs = {}
         for name, spec in op["args"].items():
             kwargs["data" if name == "$data" else name] = _materialise(world, scn_ops, spec, fresh)
+        if world.after_build is not None:
+            world.after_build()  # snapshot newly built arguments BEFORE the library sees them
         res, exc = core.capture(fn, **kwargs)
         return ["exc", exc.name] if exc else canon.canon(res)
     if k == "obtain":
@@ -981,6 +1053,12 @@ class C09Engine(Engine):
                     snaps[j] = b
             snaps.extend(cur[len(snaps):])
 
+        def snap_new():
+            cur = self._snap(world)
+            snaps.extend(cur[len(snaps):])
+
+        world.after_build = snap_new
+
         def related(host, nop):
             """Is the nested op's handle in the host's own lineage (a caller-level data race)?"""
             hs = set()
@@ -1065,6 +1143,9 @@ class C09Engine(Engine):
         finally:
             server.close()
         ctx.count("pool_objects", len(world.pool))
+        if "grid" in scn:
+            ctx.count("aliasing_grid_cases", len(ops))
+            ctx.probe("aliasing_grid_total_cases", 0)
         for op in ops:
             if op["k"] == "call":
                 ctx.site("call:" + op["f"])
